@@ -35,9 +35,9 @@ CLAIMED.update({
 
 CLAIMED.update({
  "C08": ("sibling agreement between the type classifier and the number extractor (recogniser sets); accessor/setter pairing and exactness lint in the extractor; reflect-kind dataflow after the stripping loop and at every keyword group; key-provenance rule on reflect map accesses",
-         "Representation independence as code shape: same numeric sources recognised by classifier and extractor, exact extraction, pointer/interface stripping in any nesting, keys converted to the map's key type, keyword groups guarded by (and covering) the right kinds, equality normalising wrappers, property names evaluated as Go strings. Not verdict equality for concrete values.", "4/C08"),
+         "Representation independence as code shape: same numeric sources recognised by classifier and extractor, exact extraction, pointer/interface stripping in any nesting, keys converted to the map's key type, keyword groups guarded by (and covering) the right kinds, equality normalising wrappers, property names evaluated as Go strings, "zero means missing" only for struct instances, no fact about the instance computed only next to certain keywords, nilness treated alike by hasher and equality. Not verdict equality for concrete values.", "4/C08"),
  "C11": ("guard/dominance analysis of the equality function: numbers first through the exact extractor, exactness lint over the closure of Equal, reflect-kind dataflow at the kind-mismatch exit, length-before-elements and missing-key guards on every recursive call, kind sets at explicit panics",
-         "Structure of JSON equality decided for all inputs: exact numeric comparison first, number never equals non-number, wrappers stripped on both sides, arrays vs slices element-wise, lengths before elements, missing keys unequal, identity shortcuts after length tests, panics only outside the JSON domain. Not the algebraic laws.", "4/C11"),
+         "Structure of JSON equality decided for all inputs: exact numeric comparison first, number never equals non-number, wrappers stripped on both sides, arrays vs slices element-wise, lengths before elements, missing keys unequal, identity shortcuts after length tests, panics only outside the JSON domain, Go equality (Value.Equal, DeepEqual) only for bool and string kinds. Not the algebraic laws.", "4/C11"),
  "C12": ("control dependence of the enum/const/uniqueItems failure exits on the equality function; must-pass-through of bucket recording; sibling agreement between hasher and equality via reflect-kind dataflow at every hash write; sort-before-use of map keys; def-use of the hash seed",
          "enum/const/uniqueItems are decided by the equality function, every item is recorded and compared with its whole bucket, the hash is representation independent and deterministic for equal values, one seed per call. Includes the C11 equality clauses. Not collision behaviour.", "4/C12"),
 })
@@ -49,9 +49,9 @@ CLAIMED.update({
 
 CLAIMED.update({
  "C04": ("reflect-kind dataflow over the type dispatch of the inference function; guard vocabulary of the null-adding stores; frozen table of marshaler types; constant comparison of integer bounds; guard analysis of the required list; purity and provenance rules on the tag parser",
-         "Code-shape clauses of inference soundness: kinds handled, null only extends an existing type, marshaler table matches the JSON encodings (big.Int is a known finding), embedded fields treated as encoding/json treats them (name tags, non-struct types; fields promoted through an embedded pointer being required is a known finding), bounds equal kind ranges, required iff neither omitempty nor omitzero, fields with one JSON name resolved by depth, tag parser pure, exact integrality test, every schema-returning exit passes the pointer-flag test. Not agreement with encoding/json's dynamic field resolution.", "4/C04"),
+         "Code-shape clauses of inference soundness: kinds handled, null only extends an existing type, marshaler table matches the JSON encodings (big.Int is a known finding), embedded fields treated as encoding/json treats them (name tags, non-struct types; fields promoted through an embedded pointer being required is a known finding), bounds equal kind ranges, required iff neither omitempty nor omitzero, fields with one JSON name resolved as encoding/json resolves them (the decision is evaluated abstractly over the depth/tag domain, through helpers), tag names used only if encoding/json accepts them (the validity predicate is evaluated over character classes), promoted fields of a named, omitted or overridden embedded struct skipped, tag parser pure, exact integrality test, every schema-returning exit passes the pointer-flag test. Not agreement with encoding/json's dynamic field resolution.", "4/C04"),
  "C09": ("dominating-guard and skippability analysis of the struct path (closed objects, required), constant bounds table with allocation freshness, provenance of array length and element schemas, independence of the numeric keyword group from `type`",
-         "Inferred schemas are tight in shape: every struct closed, required exactly under the two option tests, bounds equal to kind ranges and fresh, array length fixed, element schemas recursive, bounds enforced for nullable integers. Not agreement with the decoder.", "4/C09"),
+         "Inferred schemas are tight in shape: every struct closed, required exactly under the two option tests, bounds equal to kind ranges and fresh, array length fixed, element schemas recursive, bounds enforced for nullable integers, plus the embedded-field, tag-name and name-conflict clauses of C04. Not agreement with the decoder.", "4/C09"),
  "C15": ("dominating guards of every instance mutation in the default applier (not-required, missing/present), provenance of inserted values, sibling agreement between applier and has-nested-defaults predicate, skippability and traversal analysis of default validation",
          "Defaults are applied only to missing, non-required properties with fresh copies of the declared default (or containers under the predicate); present values are written back unchanged; default validation covers the full tree and can be skipped by nothing but the absence of a default. Not idempotence as an observation.", "4/C15"),
  "C16": ("clone-provenance of every table/override schema entering the result; write-effect analysis of the closure of For; test-mark-defer discipline of the cycle set; order-insensitivity classifier; tag parser purity and option provenance; index-prefix comparison for promoted fields",
